@@ -660,12 +660,22 @@ impl HardLinkContainer {
     /// Clean the trie directory: remove all files except `.idx` and
     /// `shmem*` files.
     pub fn clean_directory(&self) -> Result<usize> {
+        if self.read_only {
+            return Err(StorageError::AccessDenied(
+                "hard link container is read-only".to_string(),
+            ));
+        }
         self.trie.write().clean_directory()
     }
 
     /// Compact the trie directory: validate structure at each depth,
     /// remove orphaned files.
     pub fn compact_directory(&self) -> Result<usize> {
+        if self.read_only {
+            return Err(StorageError::AccessDenied(
+                "hard link container is read-only".to_string(),
+            ));
+        }
         self.trie.write().compact_directory()
     }
 
